@@ -150,6 +150,14 @@ Shapes(k, st) ==
      : s \in Sites(k)}
    \cup
    (IF k = "schemas" THEN
+     \* a local reference of the root document that does NOT point into components: the body schema of one of its own paths
+     {[shape |-> "pathfragment",
+       u |-> U(<<Slot(Root, "pathItems", "x", Conc("PX", <<>>) @@ [inl |-> <<[site |-> "post.requestBody.schema", id |-> "PS"]>>])>>,
+               [path |-> <<>>, frag |-> <<"#pathinl", "x", "post.requestBody.schema">>], k)],
+      [shape |-> "pathfragment_ext",      \* the same in an external document, referred to from the root
+       u |-> U(<<Slot(A1, "pathItems", "x", Conc("PX", <<>>) @@ [inl |-> <<[site |-> "post.requestBody.schema", id |-> "PS"]>>])>>,
+               [path |-> Spell(Root, A1, st), frag |-> <<"#pathinl", "x", "post.requestBody.schema">>], k)]}
+     \cup
      {[shape |-> "deepfragment",      \* a pointer into a non-component place of a whole-file target that is also a root component
        u |-> U(<<Slot(W1, k, "", Conc("W", <<>>) @@ [inl |-> <<[site |-> "properties", id |-> "P"]>>]),
                  Slot(Root, k, "Acc", Conc("Acc", <<Ch("properties", k, [path |-> Spell(Root, W1, st), frag |-> <<"#inl", "properties">>])>>)),
@@ -229,6 +237,7 @@ QuickSlice(sh, st, e, pos) ==
    \/ sh.shape = "otherhost_samepath"
    \/ (sh.shape \in {"collection", "collection_local"} /\ st = "plain" /\ e \in {"file_abs", "data"})
    \/ (pos = "op2" /\ st = "plain" /\ e = "file_abs")
+   \/ (sh.shape \in {"pathfragment", "pathfragment_ext"} /\ st = "plain" /\ e \in {"file_abs", "data"})
    \/ (sh.shape = "pi_local" /\ st = "plain" /\ e \in {"file_abs", "data"})
    \/ (sh.shape = "childdangling_whole" /\ st = "plain" /\ e \in {"file_abs", "file_rel"} /\ pos = "op")
    \/ (sh.shape = "samepath_twohosts" /\ st = "plain" /\ e \in {"file_abs", "uri_remote", "datapath"})
